@@ -223,11 +223,29 @@ class Sub:
         self.violations.append((key, what, replay))
 
 
+class ItemTimeout(BaseException):
+    pass
+
+
+def _alarm(signum, frame):
+    raise ItemTimeout()
+
+
 def _pmap_worker(args):
+    import signal
     fn, pid, tier, seed, item = args
     sub = Sub(pid, tier, seed)
+    limit = int(os.environ.get('VERIF_ITEM_TIMEOUT', '900' if tier == 'thorough' else '240'))
+    try:
+        signal.signal(signal.SIGALRM, _alarm)
+        signal.alarm(limit)
+    except ValueError:
+        pass
     try:
         sub.result = fn(sub, item)
+    except ItemTimeout:
+        sub.result = 'timeout'
+        sub.note_inconclusive(f'item exceeded {limit}s and was abandoned: {item!r:.300}')
     except HarnessError as e:
         sub.result = None
         sub.harness_error(f'{item!r:.200}: {e}')
@@ -235,6 +253,11 @@ def _pmap_worker(args):
         import traceback
         sub.result = None
         sub.harness_error(f'{item!r:.200}: {type(e).__name__}: {e} :: {traceback.format_exc()[-600:]}')
+    finally:
+        try:
+            signal.alarm(0)
+        except ValueError:
+            pass
     return sub
 
 
